@@ -41,7 +41,7 @@ $(B)/obj/actor/%.o: harness/actor/%.cpp $(COMMON) $(ACTOR_HDR)
 	@mkdir -p $(dir $@)
 	$(CXX) $(CXXFLAGS) $(ASAN) $(LIBINC) -I$(B)/lib-asan/gen -c $< -o $@
 $(B)/actor: $(B)/obj/actor/gen.o $(B)/obj/actor/exec.o $(B)/lib-asan/libmodule.a
-	$(CXX) $(ASAN) $(B)/obj/actor/gen.o $(B)/obj/actor/exec.o $(B)/lib-asan/libmodule.a -lrapidcheck -lpthread -ldl -o $@
+	$(CXX) $(ASAN) -Wl,--wrap=close $(B)/obj/actor/gen.o $(B)/obj/actor/exec.o $(B)/lib-asan/libmodule.a -lrapidcheck -lpthread -ldl -o $@
 
 WRAPS := -Wl,--wrap=pthread_create -Wl,--wrap=pthread_join -Wl,--wrap=pthread_mutex_init -Wl,--wrap=pthread_mutex_lock -Wl,--wrap=pthread_mutex_unlock -Wl,--wrap=pthread_mutex_destroy -Wl,--wrap=pthread_cond_init -Wl,--wrap=pthread_cond_wait -Wl,--wrap=pthread_cond_signal -Wl,--wrap=pthread_cond_broadcast -Wl,--wrap=pthread_cond_destroy -Wl,--wrap=pthread_attr_setdetachstate
 $(B)/obj/thpool/%.o: harness/thpool/%.cpp $(COMMON) harness/thpool/sched.hpp
